@@ -12,14 +12,20 @@ META = {
         "src/pest_bridge.rs / src/token.rs (all cfg arms): dead ordered-choice alternatives (prefix rule), agreement "
         "of the four control-operator tables, implicit-whitespace junctures versus the RFC 8610 Appendix B places "
         "where S may occur, converter dispatch covering every child pair the grammar can produce, rule-order "
-        "preservation in convert_cddl, assignment/socket/range-operator flag mapping. Decides those structural "
-        "necessary conditions for all inputs; language equality PEG vs ABNF is not decided."),
+        "preservation in convert_cddl, assignment/socket/range-operator flag mapping; (lexical) the token-level rules "
+        "(identifiers, numbers, text and byte strings, comments) are evaluated with PEG semantics on every string up to a "
+        "length bound over class-specific alphabets and compared with a transcription of the ABNF of RFC 8610 App. B / RFC 9682. "
+        "Decides those structural necessary conditions for all inputs and the lexical languages up to the bound; language "
+        "equality PEG vs ABNF above the token level is not decided."),
     "assumptions": [
         "pest implements PEG ordered choice and implicit WHITESPACE/COMMENT skipping between sequence operands of "
         "non-atomic rules as documented",
         "spec/rfc8610_junctures.json transcribes where RFC 8610 App. B / RFC 9682 permit S",
+        "RFC_LEX in rules/c03.py transcribes id, number, text, bytes and COMMENT of RFC 9682 Appendix A (ABNF literals case-insensitive)",
     ],
-    "trusted_base": ["pest_meta 2.8 grammar parser", "syn 2 Rust parser", "rule layer (python)"],
+    "trusted_base": ["pest_meta 2.8 grammar parser", "syn 2 Rust parser", "rule layer (python)", "lib/pestg.py PEG matcher"],
+    "technique": "static analysis: grammar rules on cddl.pest (prefix, juncture, table agreement), bounded-exhaustive comparison of the lexical "
+                 "rules with the ABNF, abstract interpretation of the pair->AST converters on grammar-shaped pairs",
 }
 
 BRIDGE = "src/pest_bridge.rs"
@@ -627,8 +633,127 @@ def r_type1(ctx, g):
             ctx.violation(rid, cname, B, fi.line, "convert_type1 on %s gives (first operand, operator, second operand) = %r; the derivation is %r" % (cname, got, exp))
 
 
+
+# ------------------------------------------------------------------ lexical layer vs the ABNF
+NONASCII = "\u00A0-\uD7FF\uE000-\U0010FFFD"
+HEX = "0-9a-fA-F"
+_UINT = r"(?:[1-9][0-9]*|0[xX][%s]+|0[bB][01]+|0)" % HEX
+_HEXSCALAR = r"(?:10[%(h)s]{4}|[1-9a-fA-F][%(h)s]{4}|(?:[0-9a-cA-CeEfF][%(h)s]{3}|[dD][0-7][%(h)s]{2})|[%(h)s]{1,3})" % {"h": HEX}
+_NONSURR = r"(?:[0-9a-cA-CeEfF][%(h)s]{3}|[dD][0-7][%(h)s]{2})" % {"h": HEX}
+_HEXCHAR = r"(?:\{(?:0+%(hs)s?|%(hs)s)\}|%(ns)s|[dD][89abAB][%(h)s]{2}\\u[dD][c-fC-F][%(h)s]{2})" % {"hs": _HEXSCALAR, "ns": _NONSURR, "h": HEX}
+_SESC = r"\\(?:[\"/\\bfnrt]|u%s)" % _HEXCHAR
+RFC_LEX = {
+    # RFC 8610 Appendix B as updated by RFC 9682 Appendix A (ABNF strings are case-insensitive)
+    "id": r"[A-Za-z@_$](?:[-.]*[A-Za-z@_$0-9])*",
+    "number": r"-?0[xX][%(h)s]+(?:\.[%(h)s]+)?[pP][+-]?[0-9]+|-?%(u)s(?:\.[0-9]+)?(?:[eE][+-]?[0-9]+)?" % {"h": HEX, "u": _UINT},
+    "text": r"\"(?:[\x20-\x21\x23-\x5B\x5D-\x7E%(na)s]|%(sesc)s)*\"" % {"na": NONASCII, "sesc": _SESC},
+    "bytes": r"'(?:[\x20-\x26\x28-\x5B\x5D-\x7E%(na)s]|%(sesc)s|\\'|\r?\n)*'" % {"na": NONASCII, "sesc": _SESC},
+    "comment": r";(?:[\x20-\x7E%(na)s])*" % {"na": NONASCII},
+}
+# class -> (crate rules whose union is compared, alphabet, max length quick / thorough, wrapper)
+LEX_CLASSES = {
+    "id": (("typename", "groupname"), ["a", "Z", "7", "-", ".", "@", "_", "$"], 4, 5, ("", "")),
+    "number": (("number",), ["0", "1", "9", "a", "x", "b", "e", "p", ".", "-", "+"], 4, 5, ("", "")),
+    "text": (("text_value",), ["a", "\"", "\\", "/", "n", "q", "\t", "\n", "\x7f", "\u00e9", "\x01"], 4, 5, ("\"", "\"")),
+    "bytes": (("bytes_utf8",), ["a", "'", "\\", "\"", "n", "q", "\t", "\n", "\r", "\x7f", "\u00e9"], 4, 5, ("'", "'")),
+    "comment": (("COMMENT",), ["a", ";", "\x7f", "\u00e9", "\x01", "\x85", "\""], 4, 5, (";", "")),
+}
+LEX_TARGETED = {
+    "text": ['"\\u00e9"', '"\\u{e9}"', '"\\u{0000e9}"', '"\\uD83D\\uDE00"', '"\\u{1F600}"', '"\\x41"', '"\\\'"'],
+    "bytes": ["'it\\'s'", "'a\\\\'", "'\\n'", "'\\u00e9'", "'\\q'"],
+    "id": ["a--b", "a-.b", "a.-.b", "$$$a", "$a$b", "a$"],
+    "number": ["0x1p3", "-0x1.8p-2", "1e5", "1.5e+10", "0b1e2", "0x1.8", "1.e5", "-0", "0X1F", "1E5", "0B101"],
+}
+
+
+def r_lexical(ctx, g):
+    import re
+    import itertools
+    rid = "C03.lexical"
+    ctx.rule(rid, "the lexical rules of cddl.pest (identifiers with socket prefix, numbers, text strings, unprefixed byte strings, comment "
+                  "bodies) accept exactly the strings the ABNF of RFC 8610 Appendix B as updated by RFC 9682 derives for id, number, text, "
+                  "bytes and COMMENT: both are evaluated on every string up to a length bound over a class-specific alphabet (letters, "
+                  "separators, quotes, backslash, control characters, DEL, a non-ASCII letter) plus targeted spellings; which \\u escapes "
+                  "denote a scalar value is decided on the unescaping function by C07.unescape, not here", floor=5)
+    m = pestg.Matcher(ctx.facts.grammar())
+    total = 0
+    for cls, (rules, alphabet, nq, nt, (pre, post)) in LEX_CLASSES.items():
+        ref = re.compile(RFC_LEX[cls], re.S)
+        maxlen = nq if ctx.tier == "quick" else nt
+        for r in rules:
+            if r not in g.rules:
+                raise vf.Incomplete("grammar rule %s missing" % r)
+        diffs = {"rejects-derivable": [], "accepts-underivable": []}
+        n = 0
+
+        def strings():
+            for k in range(0, maxlen + 1):
+                for t in itertools.product(alphabet, repeat=k):
+                    yield pre + "".join(t) + post
+            for t in LEX_TARGETED.get(cls, []):
+                yield t
+        for w in strings():
+            n += 1
+            try:
+                got = any(m.match(r, w) for r in rules)
+            except pestg.Unsupported as e:
+                raise vf.Incomplete("matcher: %s" % e)
+            exp = ref.fullmatch(w) is not None
+            if got == exp:
+                continue
+            if cls == "text" and "\\u" in w and got and not exp:
+                continue        # the grammar admits any hex digits after \u; which of them are scalar values is decided by C07.unescape
+            diffs["rejects-derivable" if exp else "accepts-underivable"].append(w)
+        total += n
+        ctx.site(rid, cls, "cddl.pest", g.rules[rules[0]]["l"], {"strings": n, "max_len": maxlen, "alphabet": [repr(a)[1:-1] for a in alphabet],
+                                                                   "rejects_derivable": len(diffs["rejects-derivable"]), "accepts_underivable": len(diffs["accepts-underivable"])})
+        for kind, ws in diffs.items():
+            # one report per distinguishing feature: the shortest witness of each (class, kind, feature)
+            feats = {}
+            for w in sorted(ws, key=lambda x: (len(x), x)):
+                body = w[len(pre):len(w) - len(post)] if post else w[len(pre):]
+                feat = _lex_feature(cls, kind, body)
+                feats.setdefault(feat, w)
+            for feat, w in sorted(feats.items()):
+                ctx.violation(rid, "%s|%s|%s" % (cls, kind, feat), "cddl.pest", g.rules[rules[0]]["l"],
+                              "%s: the grammar %s %r (%s); %d such string(s) up to length %d" % (
+                                  cls, "rejects the derivable" if kind == "rejects-derivable" else "accepts the underivable", w, feat,
+                                  sum(1 for x in ws if _lex_feature(cls, kind, x[len(pre):len(x) - len(post)] if post else x[len(pre):]) == feat), maxlen))
+    ctx.extra["evaluations"] = ctx.extra.get("evaluations", 0) + total
+    ctx.extra["distinct_nontrivial"] = ctx.extra.get("distinct_nontrivial", 0) + total
+
+
+def _lex_feature(cls, kind, body):
+    """the feature of a differing string that names the disagreement (so that each disagreement is reported once)"""
+    import re
+    if cls in ("text", "bytes", "comment"):
+        for ch, name in (("\t", "raw tab"), ("\n", "raw line feed"), ("\r", "raw carriage return"), ("\x7f", "DEL"), ("\x01", "C0 control character"),
+                         ("\x85", "C1 control character")):
+            if ch in body:
+                return name
+        mm = re.search(r"\\(.?)", body)
+        if mm:
+            return "backslash followed by %r" % mm.group(1) if mm.group(1) else "trailing backslash"
+        return "other"
+    if cls == "id":
+        if re.search(r"[-.]{2,}", body):
+            return "consecutive - or ."
+        if body.startswith("$$$") or re.match(r"\${1,2}$", body):
+            return "only or more than two leading $"
+        if body.endswith(("-", ".")):
+            return "trailing - or ."
+        if re.match(r"\${1,2}[-.0-9]", body):
+            return "$ followed by a digit, - or . (the ABNF's id may continue with any of them after a leading $)"
+        return "other"
+    if cls == "number":
+        if re.match(r"-?0[bB][01]+[.eE]", body) or re.match(r"-?0[xX][0-9a-fA-F]+\.[0-9a-fA-F]*$", body) or re.match(r"-?0[xX][0-9a-fA-F]*\.", body):
+            return "radix integer with fraction or exponent"
+        return "other"
+    return "other"
+
+
 def run(ctx):
     g = pestg.G(ctx.facts.grammar())
     for name, fn in (("C03.prefix", r_prefix), ("C03.ctltable", r_ctltable), ("C03.juncture", r_juncture),
-                     ("C03.children", r_children), ("C03.order", r_order), ("C03.assign", r_assign), ("C03.occur", r_occur), ("C03.rulehead", r_rulehead), ("C03.type1", r_type1)):
+                     ("C03.children", r_children), ("C03.order", r_order), ("C03.assign", r_assign), ("C03.occur", r_occur), ("C03.rulehead", r_rulehead), ("C03.type1", r_type1), ("C03.lexical", r_lexical)):
         ctx.guarded(name, lambda c, fn=fn: fn(c, g))
